@@ -262,7 +262,7 @@ class SignService:
         if len(self.unknown_ats) > 0:
             sigend_data_dict["content"][1]["tbsData"]["headerInfo"][
                 "inlineP2pcdRequest"
-            ] = self.unknown_ats
+            ] = list(self.unknown_ats)
         if len(self.requested_ats) > 0:
             sigend_data_dict["content"][1]["tbsData"]["headerInfo"][
                 "requestedCertificate"
